@@ -383,6 +383,8 @@ def get_array(aid, ctx):
 
 
 def op_add(step, ctx):
+    if step.get('only_if_raised') and step['only_if_raised'] in ctx['objs']:
+        return []           # the call this one repeats was accepted: nothing to repeat
     cls = step['cls']
     set_type = CLASSES[cls][0]
     table = CLASSES[cls][2]
